@@ -32,9 +32,14 @@ def make_kernel(kind, extra):
         if kind == 0:
             acc = jnp.mod(x, 3.0) == 0.0
             newx = jnp.mod(2.0 * x + 1.0, 17.0)
-        else:
+        elif kind == 1:
             acc = jnp.mod(x, 2.0) == 0.0
             newx = jnp.mod(x + 3.0, 11.0)
+        else:
+            # a backward sweep inside the kernel (reverse lax.scan with an order-sensitive carry)
+            acc = jnp.mod(x, 3.0) != 1.0
+            newx, _ = jax.lax.scan(lambda h, d: (jnp.mod(2.0 * h + d, 13.0), None), x,
+                                   jnp.asarray([1.0, 2.0, 3.0], dtype=jnp.float32), reverse=True)
         args = trace.get_args()
         new_trace, _, _ = model.update(trace, {"x": newx}, *args[0], **args[1])
         final = jtu.tree_map(lambda a, b: jax.lax.select(acc, a, b), new_trace, trace)
@@ -70,7 +75,7 @@ def main():
     if tier == "quick":
         grid = rng.sample(grid, 40)
     for (n, burn, thin) in grid:
-        kind = rng.randrange(2)
+        kind = rng.randrange(3)
         extra = rng.random() < 0.4
         nch = rng.choice([1, 1, 3]) if tier == "quick" else rng.choice([1, 3])
         init = rng.randint(0, 12)
